@@ -110,3 +110,39 @@ Proof.
   - split; [apply Hall; now left|]. pose proof (d2_self (fst e)). lra.
   - apply IH. intros x Hx. apply Hall. now right.
 Qed.
+
+(* ---------------- the same chain with the brute-force maximum-likelihood decoder ---------------- *)
+Local Open Scope N_scope.
+Definition link_ml (k : nat) (gs : list N) (tx : N -> N) (m : N) : N := ml_decode k gs (tx (comb m gs)).
+
+Lemma ml_decode_lt k gs r : ml_decode k gs r < 2 ^ N.of_nat k.
+Proof.
+  destruct (ml_decode_is_ml k gs r) as [Hin _]. unfold all_messages in Hin. apply in_map_iff in Hin.
+  destruct Hin as [i [<- _]]. apply msg_of_index_lt.
+Qed.
+
+(* at most t flipped bits per block and minimum distance >= 2t+1: the nearest codeword is the transmitted one *)
+Theorem link_ml_bounded_errors k gs t tx : min_distance_ge k gs (2 * t + 1) = true ->
+  forall m e, m < 2 ^ N.of_nat k -> (wt e <= t)%nat -> tx (comb m gs) = N.lxor (comb m gs) e -> link_ml k gs tx m = m.
+Proof.
+  intros Hd m e Hm Hw Htx. unfold link_ml. rewrite Htx. set (r := N.lxor (comb m gs) e). set (m' := ml_decode k gs r).
+  pose proof (ml_decode_minimum_distance k gs r m Hm) as Hmin. fold m' in Hmin.
+  assert (Er : N.lxor r (comb m gs) = e).
+  { unfold r. apply N.bits_inj. intro i. rewrite !N.lxor_spec. destruct (N.testbit (comb m gs) i), (N.testbit e i); reflexivity. }
+  rewrite Er in Hmin.
+  destruct (N.eq_dec m' m) as [E|Hne]; [exact E|exfalso].
+  assert (Hx : N.lxor m' m <> 0) by (intro E0; apply N.lxor_eq in E0; contradiction).
+  assert (Hlt : N.lxor m' m < 2 ^ N.of_nat k).
+  { apply lxor_lt_pow2; [apply ml_decode_lt|exact Hm]. }
+  pose proof (min_distance_ge_sound k gs (2 * t + 1) Hd (N.lxor m' m) ltac:(lia) Hlt) as Hdist.
+  rewrite comb_lxor in Hdist.
+  assert (Esum : N.lxor (comb m' gs) (comb m gs) = N.lxor (N.lxor r (comb m' gs)) (N.lxor r (comb m gs))).
+  { apply N.bits_inj. intro i. rewrite !N.lxor_spec. destruct (N.testbit (comb m' gs) i), (N.testbit (comb m gs) i), (N.testbit r i); reflexivity. }
+  rewrite Esum, Er in Hdist. pose proof (wt_lxor_le (N.lxor r (comb m' gs)) e) as Htri. lia.
+Qed.
+
+Corollary link_ml_ideal k gs t tx : min_distance_ge k gs (2 * t + 1) = true ->
+  forall m, m < 2 ^ N.of_nat k -> tx (comb m gs) = comb m gs -> link_ml k gs tx m = m.
+Proof.
+  intros Hd m Hm Htx. apply (link_ml_bounded_errors k gs t tx Hd m 0 Hm); [cbn; lia|]. rewrite N.lxor_0_r. exact Htx.
+Qed.
